@@ -12,6 +12,7 @@ def run(ctx):
     quick = ctx.quick
     binary = wc.build_driver(ctx)
     cov = ctx.coverage
+    cov["refdecoder_selftest_cases"] = wc.selftest(ctx, binary)
     cov["tlc"] = {}
     if quick:
         build_c = {"Caps": "{41, 42, 62, 342, 1522}", "NSmall": "{0, 1, 17, 18}", "PortClasses": '{"dhcp", "mdns", "plain"}',
